@@ -297,7 +297,7 @@ def run(ctx):
                                                join_type='join', condition=None, implicit=False, alias=None))
             stubs = base_stubs()
             stubs['query_traversal'] = lambda it, node, cb, **k: None
-            self_ = Obj('PlanJoinTSPredictorQuery', planner=Obj('QueryPlanner', databases=['int1', 'proj', 'mindsdb']))
+            self_ = Obj('PlanJoinTSPredictorQuery', planner=__import__('sa.rules.C10', fromlist=['real_planner']).real_planner(ctx, ['int1', {'name': 'proj', 'type': 'project'}], []))
             it = interp_for(stubs)
             it.isa.update({'Identifier': set(), 'Join': set()})
             try:
